@@ -10,7 +10,7 @@ export GOFLAGS=-mod=mod GOPROXY=off; unset GOWORK
 FILES=$(jq -r "select(.id==\"$ID\") | .anchors.files[]" /verif/properties.jsonl)
 for f in $FILES; do
   [ -f /repo/$f ] || continue
-  case $f in *_test.go) continue;; esac
+  case $f in *_test.go) continue;; *.go) ;; *) continue;; esac
   for t in $TRS; do
     rsync -a --delete --exclude .git /repo/ $S/
     out=$(/verif/bin/benign $S $f $t 2>&1); rc=$?
